@@ -11,14 +11,21 @@ package server
 //   - compared with the Lean model (Liftbridge.Groups, driver commands `c12 …`) — correspondence;
 //   - judged by an oracle written directly from the property statement (exactly one holder per
 //     partition of every subscribed stream, holder subscribed; nothing held for unsubscribed
-//     streams; single-stream groups balanced within one; same history ⇒ same assignments on a
-//     second, freshly built group) — independent of the model.
+//     streams; whenever the group consumes a SINGLE stream — all joins named it, or the other
+//     streams have been deleted — its subscribers' counts within one
+//     [group-single-stream-unbalanced / group-unbalanced-after-stream-delete]; same history ⇒
+//     same assignments on a second, freshly built group) — independent of the model;
+//   - the load counter consumer.assignedCount (key of the least-loaded heaps) must equal the
+//     number of partitions held [group-load-count-drift], and what GetMembers / GetAssignments
+//     hand out at the current epoch must be the state [group-api-view-differs].
 //
 // Generators: exhaustive histories (depth-first, every valid op at every node) over 3 members x
 // 3 streams x two partition-count maps out of {1,2,3,5}, up to 4 ops (quick) / 5–6 (thorough);
 // seeded random long histories over 4 members with stale/equal epochs, unsorted and duplicated
 // stream lists, leaves of non-members, deletions of unsubscribed streams, GetAssignments;
-// corpus/C12/*.ops first; replay mode.
+// skewed-load histories (c12SkewCase: overlapping-but-different subscriptions over 2-4 streams of
+// 1-5 partitions, deletions of unequally held streams, then joins/leaves/fetches on what is left);
+// failing generated cases are cut at the failing op and shrunk; corpus/C12/*.ops first; replay mode.
 //
 // The asynchronous StreamDeleted (metadata.go removeStream runs it in a goroutine): the racing
 // order "next group op first, StreamDeleted(epoch=i) afterwards" is replayed on the real object
@@ -275,9 +282,14 @@ func c12Exec(pim **c12Impl, line string) (out string) {
 
 // ---------------------------------------------------------------- the property, directly
 
-// c12Oracle judges one state against the property statement. `single` is the stream all joins of
-// the history named exclusively ("" when the history is not a single-stream history).
-func c12Oracle(st c12State, parts map[string]int32, single string) (detail, tag string) {
+// c12Oracle judges one state against the property statement. With `balance` the balance clause is
+// judged too, exactly as the statement puts it: "in a group consuming a single stream the members'
+// partition counts differ by at most one" — i.e. whenever the streams the CURRENT members are
+// subscribed to are exactly one stream (however the group got there: all joins named it, or the
+// other streams have been deleted), the numbers of its partitions held by its subscribers differ
+// by at most one. (Members left without any subscription by a deletion consume nothing and cannot
+// hold anything by the second clause; they are not counted.)
+func c12Oracle(st c12State, parts map[string]int32, balance bool) (detail, tag string) {
 	subscribed := map[string]bool{}
 	for _, m := range st.members {
 		for _, s := range m.streams {
@@ -328,14 +340,17 @@ func c12Oracle(st c12State, parts map[string]int32, single string) (detail, tag 
 			}
 		}
 	}
-	// single-stream group: counts differ by at most one
-	if single != "" {
+	// a group consuming a single stream: counts differ by at most one
+	if balance && len(streams) == 1 {
+		single := streams[0]
 		lo, hi := -1, -1
+		var cnt []string
 		for _, m := range st.members {
 			if !has(m.streams, single) {
 				continue
 			}
 			n := len(m.asg[single])
+			cnt = append(cnt, fmt.Sprintf("%s:%d", m.id, n))
 			if lo < 0 || n < lo {
 				lo = n
 			}
@@ -344,10 +359,82 @@ func c12Oracle(st c12State, parts map[string]int32, single string) (detail, tag 
 			}
 		}
 		if hi-lo > 1 {
-			return fmt.Sprintf("single-stream group on %s: partition counts range from %d to %d", single, lo, hi), "group-single-stream-unbalanced"
+			return fmt.Sprintf("the group consumes the single stream %s (%d partitions) and its subscribers hold %s partitions of it: counts range from %d to %d",
+				single, parts[single], strings.Join(cnt, " "), lo, hi), "group-single-stream-unbalanced"
 		}
 	}
 	return "", ""
+}
+
+// c12CountOracle: the internal load counter (consumer.assignedCount, the key of the least-loaded
+// heaps) equals the number of partitions the member holds over all streams. Not a clause of the
+// property itself but the invariant its balance clause rests on (Lean: Props.C12.load_count_exact);
+// observable in-package only.
+func c12CountOracle(st c12State) string {
+	for _, m := range st.members {
+		n := 0
+		for _, ps := range m.asg {
+			n += len(ps)
+		}
+		if m.count != n {
+			return fmt.Sprintf("member %s: assignedCount = %d but it holds %d partitions (%s)", m.id, m.count, n, c12Dash(c12ShowAsg(m.asg)))
+		}
+	}
+	return ""
+}
+
+// c12APIView builds the state from what the group HANDS OUT: GetMembers for the subscriptions and
+// GetAssignments(member, current epoch) for what each member is told to consume (the object is the
+// coordinator, so every member has a liveness timer). count is filled in so that the view prints
+// like an internal one.
+func c12APIView(g *consumerGroup) (st c12State, err error) {
+	_, epoch := g.GetCoordinator()
+	st = c12State{epoch: epoch, subs: map[string][]string{}}
+	for id, streams := range g.GetMembers() {
+		m := c12Member{id: id, streams: append([]string(nil), streams...), asg: map[string][]int32{}}
+		sort.Strings(m.streams)
+		a, e, aerr := g.GetAssignments(id, epoch)
+		if aerr != nil {
+			return st, fmt.Errorf("GetAssignments(%s, %d): %v", id, epoch, aerr)
+		}
+		if e != epoch {
+			return st, fmt.Errorf("GetAssignments(%s, %d) answers epoch %d", id, epoch, e)
+		}
+		for s, ps := range a {
+			m.asg[s] = append([]int32(nil), ps...)
+			m.count += len(ps)
+		}
+		st.members = append(st.members, m)
+	}
+	sort.Slice(st.members, func(i, j int) bool { return st.members[i].id < st.members[j].id })
+	return st, nil
+}
+
+// c12ViewDiff compares the handed-out view with the internal one (members, subscriptions, assignments).
+func c12ViewDiff(api, internal c12State) string {
+	show := func(st c12State) string {
+		ms := make([]string, 0, len(st.members))
+		for _, m := range st.members {
+			ms = append(ms, fmt.Sprintf("%s{%s}[%s]", m.id, strings.Join(m.streams, ","), c12ShowAsg(m.asg)))
+		}
+		return c12Dash(strings.Join(ms, ";"))
+	}
+	if a, b := show(api), show(internal); a != b {
+		return fmt.Sprintf("GetMembers/GetAssignments hand out %s, the group's state is %s", a, b)
+	}
+	return ""
+}
+
+// c12Subscribed: is some member of the state subscribed to the stream?
+func c12Subscribed(st c12State, stream string) bool {
+	for _, m := range st.members {
+		for _, s := range m.streams {
+			if s == stream {
+				return true
+			}
+		}
+	}
+	return false
 }
 
 // ---------------------------------------------------------------- cases
@@ -363,6 +450,17 @@ type c12Ctx struct {
 	// reorders: does a replay at start-up deliver the deletion to the groups after the later ops
 	// of the log (observed on the real Server by fsmRecovery)?
 	reorders bool
+	// spec failures recorded so far, by tag (a few witnesses per tag are enough; the recorder keeps
+	// 50 failures in all and every tag must get its share)
+	tags map[string]int
+}
+
+func (cx *c12Ctx) spec(f vFailure) {
+	cx.tags[f.Tag]++
+	if cx.tags[f.Tag] > 3 {
+		return
+	}
+	cx.res.Fail(f)
 }
 
 // runImpl executes a whole case on a fresh real object.
@@ -388,30 +486,6 @@ func c12FirstDiff(a, b []string) int {
 	return -1
 }
 
-// c12Single returns the stream all joins of the case name exclusively, or "".
-func c12Single(lines []string) string {
-	single := ""
-	for _, l := range lines {
-		f := strings.Fields(l)
-		if len(f) == 5 && f[1] == "join" {
-			set := map[string]bool{}
-			for _, s := range c12ParseList(f[4]) {
-				set[s] = true
-			}
-			if len(set) != 1 {
-				return ""
-			}
-			for s := range set {
-				if single != "" && single != s {
-					return ""
-				}
-				single = s
-			}
-		}
-	}
-	return single
-}
-
 // c12Judge runs one linear case (begin …) on the real object with the oracle after every op
 // (cases that change the partition counts mid-way — the asynchronous window — are judged on the
 // final state only), a determinism re-run, and the comparison with the model.
@@ -433,34 +507,128 @@ func (cx *c12Ctx) judge(lines []string, nontrivial bool, src string) {
 	if directive != nil {
 		defer cx.recoveryOrder(lines, directive[2], directive[3], src)
 	}
+	v := cx.evaluate(lines, src, false)
+	impl, fail, tag, drift := v.impl, v.fail, v.tag, v.drift
+	// determinism: the same history on a second object (different map iteration orders)
+	if fail == "" {
+		again := c12RunImpl(lines)
+		if d := c12FirstDiff(impl, again); d >= 0 {
+			fail, tag = fmt.Sprintf("same history, different outcome at op %d: %q vs %q", d, impl[d], again[d]), "group-nondeterministic"
+			v.failAt = len(lines) - 1
+		}
+	}
+	cx.res.Count(strings.Join(lines, "\n"), nontrivial)
+	if cx.res.Evaluations%997 == 1 {
+		cx.res.Sample(map[string]interface{}{"source": src, "case": lines, "impl": impl})
+	}
+	mod := cx.model.Ask(lines)
+	// a failing generated case is cut at the failing op and shrunk (ops removed while the same tag
+	// keeps failing) before it is recorded; corpus / replay cases are recorded as they are
+	report := func(detail, tg string, at int, same func(w c12Verdict) bool) {
+		if cx.tags[tg] >= 3 {
+			cx.tags[tg]++
+			return
+		}
+		c, ci, cm, d := lines, impl, mod, detail
+		if (src == "random" || src == "skew") && !v.async && tg != "group-nondeterministic" {
+			c = vShrink(lines[:at+1], func(p []string) bool { return same(cx.evaluate(p, src, true)) })
+			w := cx.evaluate(c, src, true)
+			ci, cm = w.impl, cx.model.Ask(c)
+			if tg == "group-load-count-drift" {
+				d = w.drift
+			} else {
+				d = w.fail
+			}
+		}
+		cx.spec(vFailure{Kind: "spec", Case: c, Impl: ci, Model: cm, Detail: d, Tag: tg})
+	}
+	if drift != "" {
+		report(drift, "group-load-count-drift", v.driftAt, func(w c12Verdict) bool { return w.drift != "" })
+	}
+	if fail != "" {
+		report(fail, tag, v.failAt, func(w c12Verdict) bool { return w.tag == tag })
+	}
+	if fail != "" || drift != "" {
+		return
+	}
+	if d := c12FirstDiff(impl, mod); d >= 0 {
+		cx.res.Fail(vFailure{Kind: "disagreement", Case: lines[:d+1], Impl: impl[:d+1], Model: mod[:d+1],
+			Detail: fmt.Sprintf("%s: first difference at op %d", src, d)})
+	}
+}
+
+// c12Verdict: what the statement-level oracles say about one linear case run on a fresh real object.
+type c12Verdict struct {
+	impl    []string
+	async   bool
+	fail    string // first violation of a clause of the property (or panic / API view)
+	tag     string
+	failAt  int
+	drift   string // first violation of the load-counter invariant (reported besides `fail`)
+	driftAt int
+}
+
+// evaluate runs a linear case (begin …) on the real object with the oracles after every op (cases
+// that change the partition counts mid-way — the asynchronous window — are judged on the final
+// state only). quiet: no distribution records (shrinking).
+func (cx *c12Ctx) evaluate(lines []string, src string, quiet bool) (v c12Verdict) {
 	var im *c12Impl
 	defer func() { im.close() }()
 	impl := make([]string, len(lines))
-	single := c12Single(lines)
 	async := false
+	failAt, driftAt := len(lines)-1, len(lines)-1
 	dropped := map[string]bool{}
 	fail, tag := "", ""
+	drift := ""             // first violation of the load-counter invariant (reported besides `fail`)
+	deletedSubscribed := "" // a StreamDeleted of a stream with subscribers has been accepted
 	for i, l := range lines {
-		impl[i] = c12Exec(&im, l)
 		f := strings.Fields(l)
+		hadSubscriber := false
+		if im != nil && len(f) == 4 && f[1] == "deleted" {
+			hadSubscriber = c12Subscribed(im.snapshot(), f[2])
+		}
+		impl[i] = c12Exec(&im, l)
 		if len(f) >= 2 && f[1] == "setparts" {
 			async = true
 		}
 		if len(f) == 4 && f[1] == "deleted" && impl[i] == "err epoch" {
 			dropped[f[2]] = true
 		}
-		if impl[i] == "panic" && fail == "" {
-			fail, tag = fmt.Sprintf("op %d (%s) panics", i, l), "group-panic"
+		if len(f) == 4 && f[1] == "deleted" && hadSubscriber && strings.HasPrefix(impl[i], "ok ") {
+			deletedSubscribed = f[2]
 		}
-		if im != nil && !async && fail == "" && strings.HasPrefix(impl[i], "ok ") {
-			if d, tg := c12Oracle(im.snapshot(), im.parts, single); d != "" {
-				fail, tag = fmt.Sprintf("after op %d (%s): %s", i, l, d), tg
+		if impl[i] == "panic" && fail == "" {
+			fail, tag, failAt = fmt.Sprintf("op %d (%s) panics", i, l), "group-panic", i
+		}
+		if im != nil && !async && strings.HasPrefix(impl[i], "ok ") && len(f) >= 2 && f[1] != "get" {
+			st := im.snapshot()
+			if drift == "" {
+				if d := c12CountOracle(st); d != "" {
+					drift, driftAt = fmt.Sprintf("after op %d (%s): %s", i, l, d), i
+				}
+			}
+			if fail == "" {
+				if d, tg := c12Oracle(st, im.parts, true); d != "" {
+					if tg == "group-single-stream-unbalanced" && deletedSubscribed != "" {
+						tg = "group-unbalanced-after-stream-delete"
+						d += fmt.Sprintf(" — stream %s had been deleted while members subscribed to it", deletedSubscribed)
+					}
+					fail, tag, failAt = fmt.Sprintf("after op %d (%s): %s", i, l, d), tg, i
+				}
+			}
+			// what the coordinator hands out (GetMembers / GetAssignments at the current epoch) is the state
+			if fail == "" {
+				if api, err := c12APIView(im.g); err != nil {
+					fail, tag, failAt = fmt.Sprintf("after op %d (%s): %v", i, l, err), "group-api-view-differs", i
+				} else if d := c12ViewDiff(api, st); d != "" {
+					fail, tag, failAt = fmt.Sprintf("after op %d (%s): %s", i, l, d), "group-api-view-differs", i
+				}
 			}
 		}
 	}
 	if im != nil && async && fail == "" {
 		st := im.snapshot()
-		if d, tg := c12Oracle(st, im.parts, ""); d != "" {
+		if d, tg := c12Oracle(st, im.parts, false); d != "" {
 			fail, tag = "final state: "+d, tg
 			for s := range dropped {
 				if strings.Contains(d, "stream "+s+" ") {
@@ -470,31 +638,19 @@ func (cx *c12Ctx) judge(lines []string, nontrivial bool, src string) {
 			}
 			if tag == "group-streamdeleted-dropped" && !cx.racing && src != "replay" {
 				// the case delivers StreamDeleted late, which this code base can no longer do
-				cx.res.Dist(src + ":late-delivery-schedule-unreachable(synchronous notification)")
+				if !quiet {
+					cx.res.Dist(src + ":late-delivery-schedule-unreachable(synchronous notification)")
+				}
 				fail, tag = "", ""
 			}
 		}
 	}
-	// determinism: the same history on a second object (different map iteration orders)
-	if fail == "" {
-		again := c12RunImpl(lines)
-		if d := c12FirstDiff(impl, again); d >= 0 {
-			fail, tag = fmt.Sprintf("same history, different outcome at op %d: %q vs %q", d, impl[d], again[d]), "group-nondeterministic"
+	if im != nil && async && drift == "" {
+		if d := c12CountOracle(im.snapshot()); d != "" {
+			drift = "final state: " + d
 		}
 	}
-	cx.res.Count(strings.Join(lines, "\n"), nontrivial)
-	if cx.res.Evaluations%997 == 1 {
-		cx.res.Sample(map[string]interface{}{"source": src, "case": lines, "impl": impl})
-	}
-	mod := cx.model.Ask(lines)
-	if fail != "" {
-		cx.res.Fail(vFailure{Kind: "spec", Case: lines, Impl: impl, Model: mod, Detail: fail, Tag: tag})
-		return
-	}
-	if d := c12FirstDiff(impl, mod); d >= 0 {
-		cx.res.Fail(vFailure{Kind: "disagreement", Case: lines[:d+1], Impl: impl[:d+1], Model: mod[:d+1],
-			Detail: fmt.Sprintf("%s: first difference at op %d", src, d)})
-	}
+	return c12Verdict{impl: impl, async: async, fail: fail, tag: tag, failAt: failAt, drift: drift, driftAt: driftAt}
 }
 
 // c12ReplayOrder turns the live order of a log into the order in which a server replaying the log
@@ -602,7 +758,7 @@ func (en *c12Enum) flush() {
 }
 
 // visit extends the history `prefix` (prefix[0] is the begin line) by every possible next op.
-func (en *c12Enum) visit(prefix []string, members map[string]bool, single string, singleOK bool) {
+func (en *c12Enum) visit(prefix []string, members map[string]bool, deletedSub string) {
 	d := len(prefix) - 1 // ops so far
 	if d >= en.depth {
 		return
@@ -627,20 +783,12 @@ func (en *c12Enum) visit(prefix []string, members map[string]bool, single string
 		for _, l := range prefix {
 			c12Exec(&im, l)
 		}
-		out := c12Exec(&im, op)
 		f := strings.Fields(op)
-		nsingle, nok := single, singleOK
-		if f[1] == "join" {
-			ss := c12ParseList(f[4])
-			if len(ss) != 1 || (single != "" && single != ss[0]) {
-				nok = false
-			} else {
-				nsingle = ss[0]
-			}
-		}
-		sg := ""
-		if nok {
-			sg = nsingle
+		hadSubscriber := f[1] == "deleted" && c12Subscribed(im.snapshot(), f[2])
+		out := c12Exec(&im, op)
+		ndel := deletedSub
+		if hadSubscriber && strings.HasPrefix(out, "ok ") {
+			ndel = f[2]
 		}
 		en.nodes++
 		hist := append(append([]string(nil), prefix...), op)
@@ -648,18 +796,31 @@ func (en *c12Enum) visit(prefix []string, members map[string]bool, single string
 		key := strings.Join(hist, "\n")
 		if out == "panic" {
 			en.cx.res.Count(key, true)
-			en.cx.res.Fail(vFailure{Kind: "spec", Case: hist, Impl: []string{out}, Detail: "panic", Tag: "group-panic"})
+			en.cx.spec(vFailure{Kind: "spec", Case: hist, Impl: []string{out}, Detail: "panic", Tag: "group-panic"})
 		} else {
 			st := im.snapshot()
 			en.cx.res.Count(key, len(st.members) >= 2)
 			en.cx.res.Dist(fmt.Sprintf("exh:depth%d", d+1))
-			if dt, tg := c12Oracle(st, im.parts, sg); dt != "" {
-				en.cx.res.Fail(vFailure{Kind: "spec", Case: hist, Impl: []string{out}, Detail: dt, Tag: tg})
+			if dt := c12CountOracle(st); dt != "" {
+				en.cx.spec(vFailure{Kind: "spec", Case: hist, Impl: []string{out}, Detail: dt, Tag: "group-load-count-drift"})
+			}
+			if dt, tg := c12Oracle(st, im.parts, true); dt != "" {
+				if tg == "group-single-stream-unbalanced" && ndel != "" {
+					tg = "group-unbalanced-after-stream-delete"
+					dt += fmt.Sprintf(" — stream %s had been deleted while members subscribed to it", ndel)
+				}
+				en.cx.spec(vFailure{Kind: "spec", Case: hist, Impl: []string{out}, Detail: dt, Tag: tg})
+			} else if en.nodes%8 == 0 {
+				if api, err := c12APIView(im.g); err != nil {
+					en.cx.spec(vFailure{Kind: "spec", Case: hist, Impl: []string{out}, Detail: err.Error(), Tag: "group-api-view-differs"})
+				} else if d := c12ViewDiff(api, st); d != "" {
+					en.cx.spec(vFailure{Kind: "spec", Case: hist, Impl: []string{out}, Detail: d, Tag: "group-api-view-differs"})
+				}
 			}
 			if en.nodes%16 == 0 { // determinism re-run on a second object
 				again := c12RunImpl(hist)
 				if again[len(again)-1] != out {
-					en.cx.res.Fail(vFailure{Kind: "spec", Case: hist, Impl: []string{out, again[len(again)-1]},
+					en.cx.spec(vFailure{Kind: "spec", Case: hist, Impl: []string{out, again[len(again)-1]},
 						Detail: "same history, different outcome on a second object", Tag: "group-nondeterministic"})
 				}
 			}
@@ -676,7 +837,7 @@ func (en *c12Enum) visit(prefix []string, members map[string]bool, single string
 			}
 			nm[f[2]] = f[1] == "join"
 		}
-		en.visit(hist, nm, nsingle, nok)
+		en.visit(hist, nm, ndel)
 		en.push("c12 pop", "ok", hist)
 	}
 }
@@ -688,7 +849,7 @@ func (cx *c12Ctx) exhaustive(cfg string, ids, streams []string, depth int) int {
 	out := c12Exec(&im, begin)
 	im.close()
 	en.push(begin, out, []string{begin})
-	en.visit([]string{begin}, map[string]bool{}, "", true)
+	en.visit([]string{begin}, map[string]bool{}, "")
 	en.flush()
 	return en.nodes
 }
@@ -795,6 +956,179 @@ func c12RandomCase(r *vRand, ids, streams []string, n int) []string {
 		}
 		lines = append(lines, op)
 		c12Exec(&im, op)
+	}
+	return lines
+}
+
+// ---------------------------------------------------------------- skewed loads, then deletions
+
+// c12SkewCase: groups whose members have OVERLAPPING BUT DIFFERENT subscriptions over 2-4 streams of
+// 1-5 partitions each (so the members hold unequal numbers of partitions of a stream and carry
+// unequal loads from the other streams), then streams are deleted one after the other — preferring
+// a stream whose partitions are held unequally — interleaved with joins, leaves and assignment
+// fetches, until the group consumes a single stream; then more joins / leaves / fetches on that
+// stream. All epochs are accepted ones (the fences are the business of c12RandomCase).
+func c12SkewCase(r *vRand, res *vResult) []string {
+	all := []string{"a", "b", "c", "d"}
+	streams := all[:2+r.Intn(3)]
+	var cfg []string
+	for _, s := range streams {
+		cfg = append(cfg, fmt.Sprintf("%s=%d", s, 1+r.Intn(5)))
+	}
+	lines := []string{"c12 begin " + strings.Join(cfg, ",")}
+	var im *c12Impl
+	c12Exec(&im, lines[0])
+	defer func() { im.close() }()
+	ids := []string{"u", "v", "w", "x", "y", "z"}
+	emit := func(op string) {
+		lines = append(lines, op)
+		c12Exec(&im, op)
+	}
+	next := func() uint64 { return im.snapshot().epoch + 1 }
+	freeID := func(st c12State) string {
+		used := map[string]bool{}
+		for _, m := range st.members {
+			used[m.id] = true
+		}
+		var free []string
+		for _, id := range ids {
+			if !used[id] {
+				free = append(free, id)
+			}
+		}
+		if len(free) == 0 {
+			return ""
+		}
+		return free[r.Intn(len(free))]
+	}
+	subset := func(from []string, must string) []string {
+		var ss []string
+		for _, s := range from {
+			if s == must || r.Intn(2) == 0 {
+				ss = append(ss, s)
+			}
+		}
+		if len(ss) == 0 {
+			ss = []string{from[r.Intn(len(from))]}
+		}
+		if len(ss) > 1 && r.Intn(3) == 0 { // the request is a list: unsorted, repeated
+			ss[0], ss[len(ss)-1] = ss[len(ss)-1], ss[0]
+		}
+		return ss
+	}
+	// phase 1: the first member takes (almost) everything, the others overlap with it on one stream
+	first := subset(streams, streams[r.Intn(len(streams))])
+	if len(first) < 2 {
+		first = append([]string(nil), streams...)
+	}
+	emit(fmt.Sprintf("c12 join %s %d %s", ids[r.Intn(len(ids))], next(), strings.Join(first, ",")))
+	for k := 1 + r.Intn(3); k > 0; k-- {
+		if id := freeID(im.snapshot()); id != "" {
+			emit(fmt.Sprintf("c12 join %s %d %s", id, next(), strings.Join(subset(streams, first[r.Intn(len(first))]), ",")))
+		}
+	}
+	// phase 2: deletions while the loads are unequal, membership changes and fetches in between
+	unequal := 0
+	for step := 0; step < 14; step++ {
+		st := im.snapshot()
+		var subscribed []string
+		spread := map[string]int{}
+		for _, s := range streams {
+			lo, hi := -1, -1
+			for _, m := range st.members {
+				has := false
+				for _, t := range m.streams {
+					has = has || t == s
+				}
+				if !has {
+					continue
+				}
+				n := len(m.asg[s])
+				if lo < 0 || n < lo {
+					lo = n
+				}
+				if n > hi {
+					hi = n
+				}
+			}
+			if lo >= 0 {
+				subscribed = append(subscribed, s)
+				spread[s] = hi - lo
+			}
+		}
+		if len(subscribed) <= 1 {
+			break
+		}
+		switch k := r.Intn(10); {
+		case k < 5: // delete, preferably the stream held most unequally
+			victim := subscribed[r.Intn(len(subscribed))]
+			if r.Intn(4) > 0 {
+				for _, s := range subscribed {
+					if spread[s] > spread[victim] {
+						victim = s
+					}
+				}
+			}
+			if spread[victim] >= 1 {
+				unequal++
+			}
+			emit(fmt.Sprintf("c12 deleted %s %d", victim, next()))
+			var rest []string
+			for _, s := range streams {
+				if s != victim {
+					rest = append(rest, s)
+				}
+			}
+			streams = rest
+		case k < 7:
+			if id := freeID(st); id != "" {
+				emit(fmt.Sprintf("c12 join %s %d %s", id, next(), strings.Join(subset(subscribed, ""), ",")))
+			}
+		case k < 8:
+			if len(st.members) > 1 {
+				emit(fmt.Sprintf("c12 leave %s %d", st.members[r.Intn(len(st.members))].id, next()))
+			}
+		default:
+			if len(st.members) > 0 {
+				emit(fmt.Sprintf("c12 get %s %d", st.members[r.Intn(len(st.members))].id, st.epoch))
+			}
+		}
+	}
+	// phase 3: on what is left (a single stream when phase 2 ran to its end)
+	st := im.snapshot()
+	left := map[string]bool{}
+	for _, m := range st.members {
+		for _, s := range m.streams {
+			left[s] = true
+		}
+	}
+	if len(left) == 1 {
+		res.Dist("skew:reached-single-stream")
+	} else {
+		res.Dist(fmt.Sprintf("skew:ends-with-%d-streams", len(left)))
+	}
+	res.Dist(fmt.Sprintf("skew:deletions-of-unequally-held-streams=%d", unequal))
+	var rest []string
+	for s := range left {
+		rest = append(rest, s)
+	}
+	sort.Strings(rest)
+	for k := 2 + r.Intn(5); k > 0 && len(rest) > 0; k-- {
+		st := im.snapshot()
+		switch j := r.Intn(10); {
+		case j < 4:
+			if id := freeID(st); id != "" {
+				emit(fmt.Sprintf("c12 join %s %d %s", id, next(), strings.Join(subset(rest, ""), ",")))
+			}
+		case j < 7:
+			if len(st.members) > 1 {
+				emit(fmt.Sprintf("c12 leave %s %d", st.members[r.Intn(len(st.members))].id, next()))
+			}
+		default:
+			if len(st.members) > 0 {
+				emit(fmt.Sprintf("c12 get %s %d", st.members[r.Intn(len(st.members))].id, st.epoch))
+			}
+		}
 	}
 	return lines
 }
@@ -1031,10 +1365,13 @@ func TestVerifC12(t *testing.T) {
 		"exhaustive depth-first histories (every join of a non-member with every non-empty stream subset, every leave, every stream deletion, "+
 		"epochs = op index) over 3 members x 3 streams x partition maps from {1,2,3,5}; seeded random histories of 8-40 ops over 4 members with "+
 		"stale/equal/jumping epochs, unsorted+duplicated stream lists, leaves of non-members, deletions of unsubscribed streams, partition count 0, "+
-		"GetAssignments; state dumped after every op and compared with the Lean model, judged by a statement-level oracle, re-run on a second object; "+
+		"GetAssignments; skewed-load histories: 2-4 streams of 1-5 partitions, 2-5 members with overlapping-but-different subscriptions, streams deleted one after the other "+
+		"(preferably one held unequally) with joins/leaves/fetches in between until a single stream is consumed, then joins/leaves/fetches on it; "+
+		"state dumped after every op and compared with the Lean model, judged by statement-level oracles (exactly one holder, only subscribers, balance whenever a single stream "+
+		"is consumed, load counter = partitions held, GetMembers/GetAssignments view = state), re-run on a second object; "+
 		"non-trivial = at least 2 members in the state (exhaustive) / at least 2 accepted joins (random); distinct by history text")
 	defer res.Write(t)
-	cx := &c12Ctx{t: t, model: model, res: res}
+	cx := &c12Ctx{t: t, model: model, res: res, tags: map[string]int{}}
 	cx.racing = model.Ask1("c12 async") == "ok true"
 
 	if rc := vReplayCase(t); rc != nil {
@@ -1149,10 +1486,24 @@ func TestVerifC12(t *testing.T) {
 			heapLen = len(*h)
 		}
 		im.g.mu.RUnlock()
-		d, _ := c12Oracle(im.snapshot(), im.parts, "")
+		d, _ := c12Oracle(im.snapshot(), im.parts, false)
 		res.Note(fmt.Sprintf("probe (outside the model, unreachable through the API: checkJoinConsumerGroupPreconditions refuses it before proposing): "+
 			"AddMember of an existing member directly on the object -> %s; heap of stream a now has %d entries for 1 member; oracle: %q", out, heapLen, d))
 		im.close()
+	}
+
+	// --- unequal loads, stream deletions, then a single stream (balance clause after deletions)
+	{
+		r := vNewRand(1212)
+		n := 800
+		if vThorough() {
+			n = 20000
+		}
+		for i := 0; i < n; i++ {
+			lines := c12SkewCase(r, res)
+			res.Dist("skew")
+			cx.judge(lines, true, "skew")
+		}
 	}
 
 	// --- exhaustive small scope
